@@ -82,6 +82,10 @@ def gen_real_graph(rnd, extreme=True, inexpressible=None):
         if rnd.random() < 0.3:
             key = ('PARAMS_SE2OFFSET', 2)
             params[key] = G2OParameterSE2Offset(key, rnd_pose('SE2', rnd, extreme))
+    elif rnd.random() < 0.5:
+        # a stored (non-identity) SE(2) offset parameter, also under id 0 -- the id EDGE_SE2_XY edges carry although they have no offset field
+        key = ('PARAMS_SE2OFFSET', rnd.choice([0, 0, 3]))
+        params[key] = G2OParameterSE2Offset(key, rnd_pose('SE2', rnd, extreme))
     for l in lms:
         for a in rnd.sample(poses, rnd.randint(1, 2)):
             if dim3:
